@@ -1,4 +1,5 @@
 import Indi.Properties.C05
+import Indi.Properties.C05c
 import Indi.Properties.C05b
 import Indi.Properties.Dec.Router
 #print axioms Indi.Rtr.process_deliveries
@@ -22,3 +23,6 @@ import Indi.Properties.Dec.Router
 #print axioms Indi.Decisions.routerIsBlob_agrees
 #print axioms Indi.Decisions.routerToClient_agrees
 #print axioms Indi.Decisions.router_process_from_source
+#print axioms Indi.Rtr.runD_independent
+#print axioms Indi.Rtr.C05_explicit_independent_of_default
+#print axioms Indi.Rtr.processD_default
